@@ -16,8 +16,6 @@ import (
 	"github.com/prometheus/common/model"
 	"github.com/prometheus/prometheus/config"
 
-	"tkestack.io/kvass/pkg/utils/types"
-
 	"github.com/prometheus/prometheus/discovery/targetgroup"
 	"github.com/prometheus/prometheus/scrape"
 )
@@ -183,16 +181,16 @@ func targetHash(lbls labels.Labels, url string) uint64 {
 // but populateLabels will add all config param into labels
 // must delete them from label set
 func labelsWithoutConfigParam(lbls labels.Labels, param url.Values) labels.Labels {
-	key := make([]string, 0, len(param))
-	for k := range param {
-		key = append(key, model.ParamLabelPrefix+k)
-	}
-
 	newlbls := labels.Labels{}
 	for _, l := range lbls {
-		if !types.FindString(l.Name, key...) {
-			newlbls = append(newlbls, l)
+		if strings.HasPrefix(l.Name, model.ParamLabelPrefix) {
+			// a config param is added again by the prometheus of the shard, so it is not shipped,
+			// unless relabeling gave it another value, which must reach the shard
+			if v, ok := param[l.Name[len(model.ParamLabelPrefix):]]; ok && (len(v) == 0 || v[0] == l.Value) {
+				continue
+			}
 		}
+		newlbls = append(newlbls, l)
 	}
 	return newlbls
 }
